@@ -71,17 +71,18 @@ def reference(X, tmpl, labels):
     return means, z
 
 
-def check_batch(X, tmpl, labels, p, sub):
+def check_batch(X, tmpl, labels, p, sub, tmpl_dtype="float64"):
     o = _ops()
-    tmpl_a = np.array(tmpl, dtype=np.float64)        # private copies: the kernel must not modify them, and if it
+    tmpl_a = np.array(tmpl).astype(tmpl_dtype)        # private copies: the kernel must not modify them, and if it
     lab_a = np.array(labels, dtype=np.int32)          # does the reference still sees the pristine inputs
     tmpl = tuple(float(v) for v in np.asarray(tmpl).tolist())
     labels = tuple(int(v) for v in np.asarray(labels).tolist())
     nl = len(set(labels))
     t0, l0 = tmpl_a.copy(), lab_a.copy()
     x16 = X.astype("int16")
-    key = lambda j: {"x": X[j].tolist(), "template": list(map(int, tmpl)), "labels": list(map(int, labels))}
-    case = lambda j: {"kind": "ti", "x": X[j].tolist(), "template": list(map(int, tmpl)), "labels": list(map(int, labels))}
+    extra = {} if tmpl_dtype == "float64" else {"template_dtype": tmpl_dtype}
+    key = lambda j: {"x": X[j].tolist(), "template": list(map(int, tmpl)), "labels": list(map(int, labels)), **extra}
+    case = lambda j: {"kind": "ti", "x": X[j].tolist(), "template": list(map(int, tmpl)), "labels": list(map(int, labels)), **extra}
     try:
         out = np.asarray(o.tinterpolate(x16, tmpl_a, lab_a, np.zeros(nl, "u1")))
     except Exception as e:
@@ -216,6 +217,41 @@ def _long_task(task, p):
     p.sample(sub, {"observations": nobs, "spacing": spacing, "labelings": ["10-day", "5-day", "30-day"]})
 
 
+TEMPLATE_DTYPES = ("bool", "uint8", "int8", "int16", "int32", "int64", "float32", "float64")
+
+
+def _storage_task(task, p):
+    """How the 0/1 daily template is stored (a mask from np.isin is bool, a counter array is uint8, ...) must not
+    matter: sparse irregular marks (16-day composites with one or two composites missing: gaps of 32 and 48 days)
+    on records of one and two years, and a few short templates, for every storage dtype."""
+    kind = task
+    sub = "template_storage"
+    if kind == "long":
+        for ncomp in (23, 46):
+            days = [16 * i for i in range(ncomp) if i % 7 not in (3,) and i % 11 not in (5, 6)]
+            L = days[-1] + 1
+            tmpl = np.zeros(L)
+            tmpl[days] = 1
+            t = np.array(days)
+            x = np.round(4000 + 3000 * np.sin(t / 365 * 2 * np.pi) + 600 * np.sin(t / 37.0)).astype(np.int64)
+            X = np.stack([x, np.full(len(days), 5000), 10 * t - 500, (t * 7919) % 9000])
+            labels = (np.arange(L) // 10).astype(np.int32)
+            for dt in TEMPLATE_DTYPES:
+                check_batch(X, tmpl, labels, p, sub, tmpl_dtype=dt)
+                p.count(sub, nontrivial=X.shape[0])
+    else:
+        for tmpl in ((1, 0, 0, 1), (1, 0, 1, 0, 0, 1), (0, 1, 0, 0, 0, 1, 0, 1), (1, 0, 0, 0, 0, 0, 0, 0, 0, 1, 1)):
+            nobs = sum(tmpl)
+            idx = sse.word_indices(3, nobs)
+            X = np.asarray((-5, 7, 10000), dtype=np.int64)[idx]
+            L = len(tmpl)
+            for labels in (np.arange(L) // 2, np.arange(L) // 3, np.zeros(L, int)):
+                for dt in TEMPLATE_DTYPES:
+                    check_batch(X, tmpl, labels.astype(np.int32), p, sub, tmpl_dtype=dt)
+                    p.count(sub, nontrivial=X.shape[0])
+    p.sample(sub, {"dtypes": list(TEMPLATE_DTYPES), "family": kind})
+
+
 def long_family(ctx):
     nobs_list = (100, 400) if ctx.thorough() else (100,)
     ctx.pmap(_long_task, [(n, s) for n in nobs_list for s in (16, 10, 8, 5)])
@@ -237,10 +273,11 @@ def run(ctx):
     ctx.note("alphabet", list(alphabet))
     accessor(ctx, alphabet)
     long_family(ctx)
+    ctx.pmap(_storage_task, ["long", "short"])
 
 
 def replay(sub, case, p):
     if case["kind"] == "ti":
-        check_batch(np.asarray([case["x"]], dtype=np.int64), tuple(case["template"]), np.asarray(case["labels"]), p, sub)
+        check_batch(np.asarray([case["x"]], dtype=np.int64), tuple(case["template"]), np.asarray(case["labels"]), p, sub, tmpl_dtype=case.get("template_dtype", "float64"))
     else:
         accessor(p, (-5, 7, 10000))
